@@ -9,7 +9,7 @@ use cosmwasm_std::{Addr, Binary, Empty, WasmMsg};
 use cw_multi_test::{App, AppBuilder, BankKeeper, Executor, WasmKeeper};
 use rayon::prelude::*;
 use serde_json::{json, Value};
-use std::collections::{BTreeMap, BTreeSet, HashSet};
+use std::collections::{BTreeMap, BTreeSet};
 use std::rc::Rc;
 use std::sync::Mutex;
 
@@ -476,7 +476,7 @@ pub fn alphabet(tier: Tier) -> Vec<ROp> {
 }
 
 pub fn run_c11(ctx: &Ctx) -> i32 {
-    let (coverage, assumptions) = explore_registry(ctx, ctx.tier.pick(4, 6));
+    let (coverage, assumptions) = explore_registry(ctx, ctx.tier.pick(4, 5));
     ctx.finish(coverage, assumptions)
 }
 
@@ -493,7 +493,9 @@ pub fn explore_registry(ctx: &Ctx, max_depth: usize) -> (Value, Vec<String>) {
     let shared = Shared { salted: Mutex::new(BTreeMap::new()), salted_rev: Mutex::new(BTreeMap::new()) };
     let root = RState { reg_ops: vec![], storage: SnapStorage::new(), model: RModel::default(), path: vec![] };
     let key = |s: &RState| hash128(&(&s.model, &s.storage.data));
-    let mut seen: HashSet<u128> = HashSet::new();
+    // states are kept only by the first transition that reaches them (the set is shared by the
+    // workers), so a layer never holds more than its new states
+    let seen = KeySet::new();
     seen.insert(key(&root));
     let mut frontier = vec![root];
     let mut transitions = 0u64;
@@ -516,33 +518,45 @@ pub fn explore_registry(ctx: &Ctx, max_depth: usize) -> (Value, Vec<String>) {
             caps.push(format!("stopped after depth {} because violations were found (breadth-first: they are shortest ones)", depth));
             break;
         }
-        let results: Vec<Vec<(RState, u64)>> = frontier
+        let mem_stop = std::sync::atomic::AtomicBool::new(false);
+        let results: Vec<(Vec<RState>, u64, u64)> = frontier
             .par_chunks(8)
             .map(|ch| {
                 set_watch(Watch::default());
                 let mut out = vec![];
+                let (mut nt, mut ne) = (0u64, 0u64);
                 for s in ch {
+                    if mem_stop.load(std::sync::atomic::Ordering::Relaxed) {
+                        break;
+                    }
+                    if rss_gb() > 1.5 * rss_cap_gb() {
+                        mem_stop.store(true, std::sync::atomic::Ordering::Relaxed);
+                        break;
+                    }
                     for op in &alpha {
                         let r = step(ctx, s, op, &nm, &shared);
+                        nt += 1;
+                        ne += r.evals;
                         if let Some(n) = r.next {
-                            out.push((n, r.evals));
-                        } else {
-                            out.push((s.clone(), r.evals));
+                            if seen.insert(key(&n)) {
+                                out.push(n);
+                            }
                         }
                     }
                 }
-                out
+                (out, nt, ne)
             })
             .collect();
         let mut next = vec![];
-        for out in results {
-            for (s, e) in out {
-                transitions += 1;
-                evals += e;
-                if seen.insert(key(&s)) {
-                    next.push(s);
-                }
-            }
+        for (out, nt, ne) in results {
+            transitions += nt;
+            evals += ne;
+            next.extend(out);
+        }
+
+        if mem_stop.load(std::sync::atomic::Ordering::Relaxed) {
+            caps.push(format!("resident-memory guard hit inside depth {}: that layer is incomplete", depth + 1));
+            break;
         }
         depth += 1;
         layers.push(next.len() as u64);
